@@ -64,4 +64,8 @@ CHECKS = {
         text='The default / annotation / kind / order rules hold for every parameter of merge results on name-aligned inputs (all aligned pairs of the <=2-named universe under two default/annotation taggings; 400k Hypothesis cases: n=2,3 aligned tuples with tagged defaults incl. None and equal-but-distinct objects, renamed positionals), of embed/forwards results (single truthful contributor, outer-before-inner per kind, defaults dropped only for outer positionals followed by a required inner positional, partial => None), of mask results and partial objects (identity of bound defaults).',
         design_ref='DESIGN.md 2/C10', technique='Hypothesis constructive generation + bounded enumeration vs reference rules written from the property (contributors known by construction)',
         note='Star-parameter annotations are only required not to be invented (which stars a result star stands for is not pinned down). One known finding (F8, 3-way annotation fold) is excluded by bucket.'),
+    'C17': dict(
+        text='Under a harness-owned deterministic scheduler, for 23 two-thread and 4 three-thread scenarios over shared objects (functools.wraps chains, as_forged objects, wrappers.decorator/wrapper_decorator objects and methods, modifiers-wrapped methods on same/different instances, Combination, partial), in both role orders: ALL one-preemption schedules at line granularity inside sigtools (thorough: ~120k schedules, exhaustive per scenario), ~1 800 two-preemption schedules per scenario starting in shared-state windows, and sampled three-thread schedules return the sequential answer in every thread, lose no attribute at quiescence and leave later retrievals unchanged.',
+        design_ref='DESIGN.md 2/C17', technique='systematic schedule enumeration with a cooperative scheduler (sys.settrace preemption points) vs sequential-run oracle',
+        note='Preemption only at line boundaries of sigtools frames; finer-grained (bytecode-level, C-level) races are not explored. Non-terminating schedule = harness error.'),
 }
